@@ -6,6 +6,7 @@ import asyncio
 import json
 import os
 import shlex
+import shutil
 import subprocess
 import sys
 import tempfile
@@ -18,7 +19,8 @@ from streamflow.deployment.connector.base import BaseConnector
 from streamflow.deployment.connector.local import LocalConnector
 
 KNOWN = set()
-NASTY = ["plain", "two words", "$HOME", "`echo X`", 'q"uote', "single'quote", "back\\slash", "semi;colon", "a&&b", "star*", "$(id)", "tab\tx", "üñí", "", "#hash", "~", "a=b"]
+NASTY = ["plain", "two words", "$HOME", "`echo X`", 'q"uote', "single'quote", "back\\slash", "semi;colon", "a&&b", "star*", "$(id)", "tab\tx", "üñí", "", "#hash", "~", "a=b",
+         "two\\\\backslashes", 'backslash\\"quote', "trailing\\", "cr\rx", "ff\x0cx", "ls\u2028x", "nl\nx"]
 
 
 class PlainConnector(BaseConnector):
@@ -55,7 +57,7 @@ async def verbatim(n):
     try:
         for k in range(n):
             v = rng.choice(NASTY)
-            w = rng.choice(["plain", "two words", "do$llar", "qu'ote", "semi;colon", "üñí"])
+            w = rng.choice(["plain", "two words", "do$llar", "qu'ote", "semi;colon", "üñí", "two\\\\backslashes", 'bs\\"q'])
             wd = os.path.join(base_dir, w)
             os.makedirs(wd, exist_ok=True)
             env = {"SF_V": v, "SF_W": rng.choice(NASTY)}
@@ -142,12 +144,44 @@ async def after_timeout_sequence():
         await conn.undeploy(False)
 
 
+def template_case():
+    """the queue-manager path: the command built by create_command is rendered into the job script through a command template and the
+    script is run by sh.  Values with line-boundary characters other than newline (CR, FF, VT, U+2028, ...) reach the command verbatim
+    (values with $, backtick, double quote or backslash are the recorded finding about the template's double quotes and are not used)"""
+    import subprocess
+
+    from streamflow.core.utils import create_command
+    from streamflow.deployment.template import CommandTemplateMap
+
+    values = ["plain value", "line1\nline2", "carriage\rreturn", "dos\r\nline", "form\x0cfeed and vertical\x0btab", "line\u2028separator and paragraph\u2029separator",
+              "next\x85line and \x1c\x1d\x1e separators", "trailing newline\n"]
+    tm = CommandTemplateMap(default="#!/bin/sh\n\n{{streamflow_command}}", template_map={"svc": "#!/bin/sh\n#SBATCH --nodes=1\n\ncd {{ streamflow_workdir }}\n{{ streamflow_command }}\n"})
+    workdir = os.path.realpath(tempfile.mkdtemp(prefix="c25tpl."))
+    try:
+        for service in (None, "svc"):
+            for i, value in enumerate(values):
+                env = {"SF_VALUE": value}
+                command = create_command(class_name="SlurmConnector", command=["printf", "'[%s]'", '"$SF_VALUE"'], environment=env, workdir=workdir)
+                script = tm.get_command(command=command, template=service, environment=env, workdir=workdir)
+                path = os.path.join(workdir, f"job_{service}_{i}.sh")
+                with open(path, "w", encoding="utf-8", newline="") as f:
+                    f.write(script)
+                proc = subprocess.run(["sh", path], capture_output=True, timeout=30)
+                out = proc.stdout.decode("utf-8", errors="replace")
+                if proc.returncode != 0 or out != f"[{value}]":
+                    return {"failure": "an environment value did not reach the command verbatim through the job-script template", "template": service or "default",
+                            "value": repr(value), "got": repr(out), "exit": proc.returncode}
+        return None
+    finally:
+        shutil.rmtree(workdir, ignore_errors=True)
+
+
 def replay(path):
     d = load_replay(path)
     if (d.get("info") or {}).get("known") == "KF-C25-timeout-reexecution":
         n = asyncio.run(timeout_reexecution())
         finish_replay(path, {"executions_of_one_command_after_a_shell_timeout": n} if n != 1 else None)
-    finish_replay(path, asyncio.run(verbatim(25)) or asyncio.run(after_timeout_sequence()), "(25 environment/workdir cases x 2 executors + command sequences, one with a timeout)")
+    finish_replay(path, asyncio.run(verbatim(25)) or asyncio.run(after_timeout_sequence()) or template_case(), "(25 environment/workdir cases x 2 executors + command sequences, one with a timeout)")
 
 
 def crosscheck(n):
@@ -156,7 +190,7 @@ def crosscheck(n):
         print(json.dumps({"axiom_disagreements": 1, "samples": [ax]}, default=str))
         sys.exit(3)
     k = max(6, int(n) // 5)
-    bad = asyncio.run(verbatim(k)) or asyncio.run(after_timeout_sequence())
+    bad = asyncio.run(verbatim(k)) or asyncio.run(after_timeout_sequence()) or template_case()
     if asyncio.run(timeout_reexecution()) != 1:
         KNOWN.add("KF-C25-timeout-reexecution")
     from streamflow.deployment.template import CommandTemplateMap
